@@ -32,6 +32,9 @@ func c12(c *Ctx) {
 	c12ReplyPerRequest(c)
 	c12AttemptsNotCapped(c)
 	c12UserRecorded(c)
+	// the USER/PASS lines reach the event channel through the command log of the session: when that is drained next to a
+	// termination arm it is a rendezvous channel, or the last lines (the login) are dropped when the session ends (shared with C04)
+	c04ReporterQueues(c, 0, "services/ftp")
 }
 
 // ---------- helpers
@@ -946,6 +949,38 @@ func c12FTP(c *Ctx) {
 					}
 					if sameField && call.Call.Args[1] == ssa.Value(fn.Params[len(fn.Params)-1]) {
 						okG = true
+					}
+				}
+				// the store sits in a helper method of the connection (completeLogin): every call of it is under that test
+				if l2, ok2 := isLoad(st.Val); ok2 && !okG && len(fn.Params) > 0 && fa.X == ssa.Value(fn.Params[0]) {
+					if f2, okF2 := l2.X.(*ssa.FieldAddr); okF2 && f2.X == fa.X && f2.Field != fa.Field {
+						sites, good := 0, 0
+						for _, g := range p.FuncsIn("services/ftp") {
+							for _, call := range Calls(g) {
+								if call.Common().StaticCallee() != fn || len(call.Common().Args) == 0 {
+									continue
+								}
+								sites++
+								recv := call.Common().Args[0]
+								for _, dc := range DomConds(call) {
+									ex, ok := dc.V.(*ssa.Extract)
+									if !ok || ex.Index != 0 || !dc.Pol {
+										continue
+									}
+									cp, ok := ex.Tuple.(*ssa.Call)
+									if !ok || !cp.Call.IsInvoke() || cp.Call.Method.Name() != "CheckPasswd" {
+										continue
+									}
+									if l1, ok1 := isLoad(cp.Call.Args[0]); ok1 {
+										if f1, okF1 := l1.X.(*ssa.FieldAddr); okF1 && f1.X == recv && f1.Field == f2.Field && cp.Call.Args[1] == ssa.Value(g.Params[len(g.Params)-1]) {
+											good++
+											break
+										}
+									}
+								}
+							}
+						}
+						okG = sites > 0 && good == sites
 					}
 				}
 				c.Check(okG, "ftp-login-writers", key, p.InstrPos(st), "set to the requested user only under CheckPasswd(reqUser, password)==true", "Conn.user is set to a non-empty value without CheckPasswd(conn.reqUser, <PASS argument>) having returned true for that same user")
